@@ -19,7 +19,7 @@ CONTENT_TAGS = {"ret", "contents", "tag", "len", "is_empty", "iter", "into_iter"
                 "get_borrowed", "setter_calls", "peek_stored", "pop_stored", "peek_none", "pop_none",
                 "popif_stored", "popif_none", "popif_seen", "sorted_missing", "sorted_dup_or_unknown",
                 "sorted_elem", "sorted_count", "retain_calls", "itermut_elem", "itermut_dup", "bulk_contents",
-                "append_contents", "append_other_nonempty", "unknown_op"}
+                "append_contents", "append_other_nonempty", "unknown_op", "drain_elem", "drain_count", "drain_not_empty"}
 SAFETY_TAGS = {"panic", "wf", "abort"}
 ALL = None  # every tag
 
@@ -105,6 +105,24 @@ def append_probes(kind, keys, maxp):
     return out
 
 
+def reuse_probes(kind, keys, maxp):
+    """the queue emptied (clear, drain consumed to any extent, drain leaked) and then REUSED: refilled with at
+    least three items, one of them removed by key, everything popped - the index tables of the first life must
+    not show through in the second"""
+    pm = ["pop"] if kind == "pq" else ["pop_min", "pop_max"]
+    names = list(keys) + ["z", "y", "x"][:max(0, 3 - len(keys))]
+    out = []
+    empties = [[{"op": "clear"}], [{"op": "drain", "n": 0}], [{"op": "drain", "n": len(keys)}],
+               [{"op": "iter_calls", "it": "drain", "calls": [0], "forget": True}]]
+    for emp in empties:
+        for vi, v in enumerate(names):
+            for desc in (False, True):
+                fill = [{"op": "push", "k": k, "r": (len(names) - i if desc else i)} for i, k in enumerate(names)]
+                out.append(emp + fill + [{"op": "remove", "k": v}] + [{"op": pm[(vi + j) % len(pm)]} for j in range(len(names))]
+                           + [{"op": "contents"}])
+    return out
+
+
 def p_C01(tier, seed):
     n, mp = scope(tier, (4, 2), (5, 2))
     f = engines.engine_A("C01", ["pq"], n, mp, light, ["sorted:pop"])
@@ -137,10 +155,11 @@ def p_C03(tier, seed):
     if tier == "thorough":
         # every arrangement of 5 items x 3 priorities, 60 seeded probes from each
         f.merge(engines.engine_A("C03", ["pq", "dpq"], 5, 2, light, ["contents"], probe_sample=60, seed=seed, wd_name="C03w"))
-    f.merge(engines.engine_A("C03", ["pq", "dpq"], n, mp, lambda p: False, ["contents"], extra_probes=append_probes,
+    f.merge(engines.engine_A("C03", ["pq", "dpq"], n, mp, lambda p: False, ["contents"],
+                             extra_probes=lambda k, ks, m: append_probes(k, ks, m) + reuse_probes(k, ks, m),
                              wd_name="C03a", max_states=scope(tier, 40, None)))
     nh, nk, no = scope(tier, (8, [8, 20], 300), (32, [8, 20, 50], 1500))
-    f.merge(engines.engine_B("C03", ["pq", "dpq"], seed, nh, nk, no, check_every=5))
+    f.merge(engines.engine_B("C03", ["pq", "dpq"], seed, nh, nk, no, check_every=5, weights={"clear": 0.5, "drain": 1}))
     return f
 
 
@@ -247,6 +266,32 @@ def p_C12(tier, seed):
     nh, nk, no = scope(tier, (8, [8, 20], 300), (32, [8, 20, 50], 1500))
     f.merge(engines.engine_B("C12", ["pq", "dpq"], seed, nh, nk, no, check_every=5,
                              weights={"peek": 12, "get": 12, "iter_mut": 3, "change_priority": 15}))
+    # extend naming items that are already present is a priority update like push: the stored item (and what was
+    # written into it through the *_mut accessors) stays - through BOTH strategies of extend (per-element pushes;
+    # append-and-rebuild, which needs >= 8 stored elements and a batch of more than 2*(len+n)/log2(len) pairs)
+    import random
+    rng = random.Random(seed * 31 + 5)
+    cases = []
+    for kind in ("pq", "dpq"):
+        pk = ["peek_mut"] if kind == "pq" else ["peek_min_mut", "peek_max_mut"]
+        for ln in scope(tier, (2, 8, 16, 33), (2, 8, 9, 16, 33, 64, 100)):
+            keys = ["k%d" % i for i in range(ln)]
+            steps = [{"op": "push", "k": k, "r": rng.randint(-3, 7)} for k in keys]
+            steps += [{"op": "get_mut", "k": keys[i], "b": i % 2, "wp": 1} for i in range(0, ln, 3)] + [{"op": o, "wp": 1} for o in pk]
+            for batch, hint in ((3 * ln + 8, None), (3 * ln + 8, [0, -1]), (2, None), (ln, [0, -4])):
+                pairs = [[rng.choice(keys + ["z%d" % j for j in range(4)]), rng.randint(-3, 7)] for _ in range(batch)]
+                pairs[0][0] = keys[0]
+                pairs[-1][0] = keys[-1]
+                st = {"op": "extend", "pairs": pairs}
+                if hint is not None:
+                    st["hint"] = hint
+                steps += [st, {"op": "contents"}, {"op": "get", "k": keys[0], "b": 1}]
+            cases.append({"case": [kind, "ext12", ln], "kind": kind, "hasher": "std", "universe": keys + ["z0", "z1", "z2", "z3"],
+                          "steps": steps, "probes": [], "wit": []})
+    t = engines.Findings()
+    t.stats["engines"].append({"engine": "X-extend", "cases": len(cases)})
+    engines.replay_and_validate(cases, vlib.workdir("C12_X"), "X-extend", t)
+    f.merge(t)
     return f
 
 
@@ -385,9 +430,23 @@ def p_C07(tier, seed):
 def p_C08(tier, seed):
     n, mp = scope(tier, (4, 1), (5, 2))
     wit = ["contents", "sorted:pop", "sorted:pop_min", "sorted:pop_max", "sorted:alt"]
-    f = engines.engine_A("C08", ["pq", "dpq"], n, mp, lambda p: p["op"] in INPLACE, wit)
+
+    def extra(kind, keys, maxp):
+        # "for all reachable queue states": also the UNORDERED states a leaked iter_mut guard leaves behind (a
+        # priority raised above / lowered below everything, guard forgotten) - every rebuilding call must
+        # restore the order from them too, whether or not it changes the length
+        out = []
+        restore = [{"op": "retain", "keep": list(keys)}, {"op": "retain_mut", "keep": list(keys)},
+                   {"op": "retain", "keep": list(keys[:-1])}, {"op": "retain_mut", "keep": list(keys[1:]), "set": {keys[-1]: 0}},
+                   {"op": "iter_mut", "n": 0}, {"op": "iter_mut", "n": 1, "set": {keys[0]: 1}}]
+        for k in keys:
+            for r in (maxp + 1, -1):
+                for rs in restore:
+                    out.append([{"op": "iter_mut", "n": len(keys), "set": {k: r}, "forget": True}, rs])
+        return out
+    f = engines.engine_A("C08", ["pq", "dpq"], n, mp, lambda p: p["op"] in INPLACE, wit, extra_probes=extra)
     nh, nk, no = scope(tier, (8, [16, 30], 300), (32, [16, 30, 60], 1500))
-    f.merge(engines.engine_B("C08", ["pq", "dpq"], seed, nh, nk, no, check_every=3,
+    f.merge(engines.engine_B("C08", ["pq", "dpq"], seed, nh, nk, no, check_every=3, leak=0.15,
                              weights={"retain": 8, "retain_mut": 10, "iter_mut": 10, "pop_if": 15}))
     return f
 
@@ -703,24 +762,24 @@ def p_C18(tier, seed):
 
 
 PROPS = {
-    "C01": {"run": p_C01, "level": "model_checking",
+    "C01": {"run": p_C01, "level": "model_checking", "aborts": True,
             "relevant": lambda fl: fl["kind"] == "pq" and bool(set(fl["tags"]) & ORDER_TAGS)},
-    "C02": {"run": p_C02, "level": "model_checking",
+    "C02": {"run": p_C02, "level": "model_checking", "aborts": True,
             "relevant": lambda fl: fl["kind"] == "dpq" and bool(set(fl["tags"]) & ORDER_TAGS)},
-    "C03": {"run": p_C03, "level": "model_checking",
+    "C03": {"run": p_C03, "level": "model_checking", "aborts": True,
             "relevant": lambda fl: bool(set(fl["tags"]) & CONTENT_TAGS)},
     "C04": {"run": p_C04, "level": "model_checking", "aborts": True,
             "relevant": lambda fl: bool(set(fl["tags"]) & SAFETY_TAGS)
             or (fl["op"] == "iter_calls" and bool(set(fl["tags"]) & {"iter_panic", "iter_dup"}))},
     "C05": {"run": p_C05, "level": "model_checking",
             "relevant": lambda fl: "cost" in fl["tags"]},
-    "C06": {"run": p_C06, "level": "model_checking",
+    "C06": {"run": p_C06, "level": "model_checking", "aborts": True,
             "relevant": lambda fl: (fl["op"] == "sorted" and fl["event"].get("mode") in ("vec", "iter", "asc_vec", "desc_vec")) or
             (fl["op"] == "into_calls" and fl["cause"].get("it") == "sorted"
              and bool(set(fl["tags"]) & {"iter_order", "iter_last", "iter_dup", "iter_unknown", "iter_missing", "iter_after_none", "iter_len"}))},
     "C07": {"run": p_C07, "level": "model_checking", "aborts": True,
             "relevant": lambda fl: fl["cause_op"] in BULK},
-    "C08": {"run": p_C08, "level": "model_checking",
+    "C08": {"run": p_C08, "level": "model_checking", "aborts": True,
             "relevant": lambda fl: fl["cause_op"] in INPLACE},
     "C09": {"run": p_C09, "level": "model_checking",
             "relevant": lambda fl: fl["op"] == "iter_calls" and fl["cause"].get("it") in ("iter_mut", "iter_mut_ref")},
@@ -728,26 +787,27 @@ PROPS = {
             "relevant": lambda fl: fl["op"] in ("iter_calls", "into_calls")
             and fl["cause"].get("it") in ("iter", "iter_ref", "into_iter", "drain", "sorted")
             and bool(set(fl["tags"]) & {"iter_dup", "iter_unknown", "iter_missing", "iter_after_none", "iter_len", "iter_hint", "iter_panic", "iter_last", "iter_position"})},
-    "C14": {"run": p_C14, "level": "model_checking",
+    "C14": {"run": p_C14, "level": "model_checking", "aborts": True,
             "relevant": lambda fl: fl["op"] in ("eq", "ne", "clone", "clone_from") or fl["cause_op"] in ("clone", "clone_from")
             or fl["phase"] == "hist"
             or (fl["op"] in ("contents",) and fl.get("event", {}).get("q") == 0)},
     "C15": {"run": p_C15, "level": "model_checking", "aborts": True,
             "relevant": lambda fl: fl["cause_op"] in ("de", "roundtrip", "de_tokens", "ser") or fl["op"] in ("de", "roundtrip", "de_tokens", "ser")
             or fl["engine"].startswith("F") or fl["engine"] == "witness"},
-    "C16": {"run": p_C16, "level": "model_checking",
+    "C16": {"run": p_C16, "level": "model_checking", "aborts": True,
             "relevant": lambda fl: True},
-    "C17": {"run": p_C17, "level": "model_checking",
+    "C17": {"run": p_C17, "level": "model_checking", "aborts": True,
             "relevant": lambda fl: True},
-    "C18": {"run": p_C18, "level": "model_checking",
+    "C18": {"run": p_C18, "level": "model_checking", "aborts": True,
             "relevant": lambda fl: bool(set(fl["tags"]) & (ORDER_TAGS | CONTENT_TAGS | SAFETY_TAGS | {"de_contents"}))},
     "C10": {"run": p_C10, "level": "model_checking", "aborts": True,
             "relevant": lambda fl: "drop_balance" in fl["tags"]},
-    "C11": {"run": p_C11, "level": "model_checking",
+    "C11": {"run": p_C11, "level": "model_checking", "aborts": True,
             "relevant": lambda fl: fl["cause_op"] in PUSHDIR},
-    "C12": {"run": p_C12, "level": "model_checking",
-            # (the stored item written by the bulk operations is C07's business)
-            "relevant": lambda fl: (bool(set(fl["tags"]) & {"payload", "get_borrowed"}) and fl["cause_op"] not in BULK)
+    "C12": {"run": p_C12, "level": "model_checking", "aborts": True,
+            # (the stored item written by the constructing / merging bulk operations is C07's business; extend on a present
+            # item is a priority update)
+            "relevant": lambda fl: (bool(set(fl["tags"]) & {"payload", "get_borrowed"}) and fl["cause_op"] not in (BULK - {"extend"}))
             or (fl["cause"].get("b") == 1 and bool(set(fl["tags"]) & {"ret", "contents"}))
             # a *_mut accessor that addresses another element than the one it should: the write lands elsewhere
             or (fl["op"] in ("peek_mut", "peek_min_mut", "peek_max_mut", "get_mut")
@@ -816,7 +876,7 @@ def run(prop, tier, seed, t0):
             else:
                 abort_v.append(ab)
     elif f.aborts:
-        log("NOTE: %d harness process deaths in this run (judged by C04/C10, not by %s)" % (len(f.aborts), prop))
+        log("NOTE: %d harness process deaths in this run (not judged by %s)" % (len(f.aborts), prop))
     for kid, (k, cnt) in sorted(known_hits.items()):
         log("KNOWN-FINDING: property=%s %s [%s, %d occurrences]" % (prop, k["description"], kid, cnt))
     if other:
